@@ -78,5 +78,79 @@ def failing_under_fault(c, runner):
         shutil.rmtree(base, ignore_errors=True)
 
 
+def failing_when_map_cannot_grow(c, runner):
+    """"or any other" error, second kind: the event map cannot grow (RLIMIT_FSIZE set to the map's present length for the duration
+    of the call - a full disk or a quota; worker request FSZ). Stores of regular events, newer versions of a replaceable address
+    (the holder must survive a refused replacement) and deletion requests are made one after the other until the map is full; every
+    call that returns an error must leave the whole battery as it was - in particular the call whose event still fitted but left
+    no room for the next one, and the call that hits the wall (oracle: the property text; no model involved)."""
+    rng = c.rng
+    Q = c.tier == 'quick'
+    base = os.path.join(RUNDIR, 'C12g-%d' % os.getpid())
+    os.makedirs(base, exist_ok=True)
+    try:
+        lines, meta = [], []
+        for k in range(3 if Q else 30):
+            g = HistGen(rng, 'C12')
+            pk = rng.choice(AUTHORS)
+            # make the map (several hundred KB) much longer than LMDB's file, so that only the map's growth meets the limit
+            fill = [g.new_event(kind=1, pk=rng.choice(AUTHORS), t=50 + i, tags=[], content=b'f' * 9000) for i in range(30)]
+            holder = g.new_event(kind=10002, pk=pk, t=100, tags=[], content=b'holder')
+            note = g.new_event(kind=1, pk=pk, t=100, tags=[[b't', b'a']], content=b'note')
+            calls = []
+            for i in range(14):
+                sz = rng.choice([10, 150, 300, 700, 1500])
+                r = rng.random()
+                if r < 0.4:
+                    x = g.new_event(kind=10002, pk=pk, t=200 + i, tags=[], content=b'v' * sz)
+                elif r < 0.55:
+                    x = g.new_event(kind=5, pk=pk, t=500 + i, content=b'd' * sz, tags=[[b'e', note['id'].hex().encode()], [b'a', b'10002:' + pk.hex().encode() + b':']])
+                else:
+                    x = g.new_event(kind=1, pk=pk, t=200 + i, tags=[[b't', b'a']], content=b'r' * sz)
+                calls.append(x)
+            ids = [holder['id'], note['id']] + [x['id'] for x in calls]
+            bat = []
+            for i in ids:
+                bat += ['HAS ' + hx(i), 'DEL ' + hx(i)]
+            bat += ['FRP %s 10002' % hx(pk), 'NAD 10002 %s %s' % (hx(pk), hx(b'')), 'STA', 'FND _ %s _ _ - - - 1 0 0 m' % hx(pk)]
+            start = len(lines)
+            lines += ['NEW %s -' % os.path.join(base, 'g%d' % k)] + ['STO ' + ev_tok(e) for e in fill + [holder, note]] + bat
+            pos = []
+            for x in calls:
+                pos.append(len(lines))
+                lines += ['FSZ %d STO %s' % (rng.choice([0, 0, 8]), ev_tok(x))] + bat
+            lines.append('RMD')
+            meta.append((start, len(fill) + 2, len(bat), pos))
+        out = [strip_now(x) for x in c.worker.run(lines)]
+        c.evaluations += sum(len(m[3]) for m in meta)
+        norm = lambda l, x: ' '.join(y for y in x.split(' ') if not y.startswith('end=')) if l == 'STA' else x
+        for start, npre, nb, pos in meta:
+            prev = out[start + 1 + npre:start + 1 + npre + nb]
+            batl = lines[start + 1 + npre:start + 1 + npre + nb]
+            for p_ in pos:
+                rq = out[p_]
+                cur = out[p_ + 1:p_ + 1 + nb]
+                rep = [l for l in lines[start:p_ + 1] if l[:3] in ('NEW', 'STO', 'FSZ')] + batl
+                cls = rq.split(' ')[2] if rq.startswith('limit=') and len(rq.split(' ')) > 2 else rq.split(' ')[0]
+                c.count('map_cannot_grow_store:%s' % cls)
+                if not rq.startswith('limit='):
+                    c.violation('oracle', 'store under a file-size limit did not complete: %s' % rq[:60], rep)
+                    break
+                if cls != 'ok':
+                    diff = [(l[:16], x[:40], y[:40]) for l, x, y in zip(batl, prev, cur) if norm(l, x) != norm(l, y)]
+                    if diff:
+                        c.violation('oracle', 'a store that failed (%s: the event map could not grow) changed %s: %s -> %s' % (cls, diff[0][0], diff[0][1], diff[0][2]), rep)
+                        break
+                    c.nontriv(('map-cannot-grow', cls, p_ - start))
+                prev = cur
+    finally:
+        shutil.rmtree(base, ignore_errors=True)
+
+
+def faults(c, runner):
+    failing_under_fault(c, runner)
+    failing_when_map_cannot_grow(c, runner)
+
+
 def run():
-    run_store('C12', THEOREMS, """Focus: stores that fail: duplicates, deleted, replaced (after the pre-removal scan), deletion requests refused at their k-th tag after k-1 effective ones, requests naming an address with a 480-byte identifier (LMDB key-size error after earlier tags took effect); oracle (model-free): the whole battery before the failing call equals the battery after it (every lookup, marker, address query, extra table and all index entry counts).""", {'reply', 'noop'}, relevant={'STO'}, extra=failing_under_fault)
+    run_store('C12', THEOREMS, """Focus: stores that fail: duplicates, deleted, replaced (after the pre-removal scan), deletion requests refused at their k-th tag after k-1 effective ones, requests naming an address with a 480-byte identifier (LMDB key-size error after earlier tags took effect); oracle (model-free): the whole battery before the failing call equals the battery after it (every lookup, marker, address query, extra table and all index entry counts).""", {'reply', 'noop'}, relevant={'STO'}, extra=faults)
